@@ -12,12 +12,12 @@ CONSTANTS
   WakeAfterPush = TRUE
   Overflow = FALSE
   Hosts <- BothHosts
-  Muts <- AllMuts
+  Muts = {"none"}
   Ops = {"o1"}
   Timers = {"s1"}
   Jobs = {}
   Owner <- OwnA
   AnyTurn = TRUE
 SPECIFICATION XFairSpec
-INVARIANTS XTypeOK PendingBound TypeOK RealSafe CtlClearAfterPoll CtlIgnoreFlush CtlNoTimeout CtlNoFlush CtlDrainAfterBlocking
+INVARIANTS XTypeOK PendingBound TypeOK RealSafe FindingStrict
 PROPERTIES Completes WakeSeen OpSeen TimerSeen
